@@ -1082,6 +1082,8 @@ def do_replay(prop, path):
             sys.exit(1)
         log("replay does not reproduce on the current tree")
         sys.exit(0)
+    if kind not in ("replay", "ic-replay", "stack-replay") or "path" not in r:
+        die_tool("replay file of kind %r cannot be re-executed by this version (written by an older version?)" % kind)
     edge = {"subj": r.get("subj"), "kind": r.get("kind"), "path": r["path"], "fixed_forms": True,
             "res": r.get("expected", {}).get("res"), "obs": r.get("expected", {}).get("obs")}
     ef = os.path.join(wd, "edge.ndjson")
